@@ -678,8 +678,26 @@ func (e *Exec) jFirstByte(v JVal) *T {
 func (e *Exec) absLenImpl(s Slice) Value {
 	v := e.textValue(s)
 	switch x := v.(type) {
-	case *JObj, *JArr, JStr:
-		return sym.BVC(64, 7) // >= 2; exact length is not modelled (the repo tests > 0, > 1, < 3 on containers via ConcatJSON only)
+	case *JObj:
+		// {} has length 2; anything else is longer (exact length not modelled; the repo tests > 0, > 1, > 2, < 3)
+		var present []*T
+		for _, m := range x.M {
+			present = append(present, guardT(m.G))
+		}
+		return sym.Ite(sym.Or(present...), sym.BVC(64, 7), sym.BVC(64, 2))
+	case *JArr:
+		if len(x.E) == 0 {
+			return sym.BVC(64, 2)
+		}
+		return sym.BVC(64, 7)
+	case JStr:
+		if x.S.Concrete() && x.S.S == "" {
+			return sym.BVC(64, 2)
+		}
+		if x.S.Op != nil {
+			return sym.Ite(sym.Eq(x.S.Op, sym.BVC(64, 0)), sym.BVC(64, 2), sym.BVC(64, 7))
+		}
+		return sym.BVC(64, uint64(2+x.S.Len()))
 	case JNull:
 		return sym.BVC(64, 4)
 	case JBool:
